@@ -9,6 +9,13 @@ ALL_KINDS = ["NewGrp", "Sub", "Leave", "SetSelf", "SetOther", "DelSub", "Pub", "
 SESS_USER = {}
 
 
+def recs_by(recs, b, i):
+    for r in recs:
+        if r["b"] == b and r["i"] == i:
+            return r
+    return None
+
+
 def signature(recs, k, mon):
     """Signature fields that identify the failing call site / history shape (used for known-finding matching)."""
     rec, pre = recs[k - 1], recs[k - 2]
@@ -48,7 +55,7 @@ def signature(recs, k, mon):
 
 
 def run_topic_check(ctx, prop, *, kinds, want, given, maxseq, u1_quick, u1_thorough, sim_quick, sim_thorough,
-                    extra_props=(), nusers=3, sess_per_user=1, maxsubs=3, extra_behaviours=None, assumptions=(), rule="", delranges=None, maxdel=2, faults=None, p2p=False, root=False, special=False):
+                    extra_props=(), nusers=3, sess_per_user=1, maxsubs=3, extra_behaviours=None, assumptions=(), rule="", delranges=None, maxdel=2, faults=None, p2p=False, root=False, special=False, gates=None):
     thorough = ctx.tier == "thorough"
     users, sess, topics = world.population(nusers, sess_per_user, ("g1", "p12") if p2p else ("g1",))
     levels, roots = {}, []
@@ -162,6 +169,39 @@ def run_topic_check(ctx, prop, *, kinds, want, given, maxseq, u1_quick, u1_thoro
             bj = bj + fbj
     vlib.log("replayed %d behaviours (%d regression/goal-directed, %d simulated), %d steps; %d failures of %s monitors; %d divergences" % (
         len(bj), nreg, len(sims), len(recs), n, prop, len(divs)))
+    if gates:
+        # ---- interleaving gates: a second request is run to completion at a store-call boundary of the first one
+        gv = []
+        steps_of = {b["id"]: b["steps"] for b in bj}
+        seen_g = set()
+        for r in recs:
+            a = r["act"]
+            if r["i"] > 0 and a.get("a") in gates["outer"] and r["reply"].get("code") == 200 and not r.get("faultFired"):
+                pre = recs_by(recs, r["b"], r["i"] - 1)
+                t = a.get("t")
+                c = pre["st"]["cache"].get(t, {}) if pre else {}
+                for x in (c.get("att") or []):
+                    if x["s"] == a.get("s"):
+                        continue
+                    for m in gates["methods"]:
+                        if m in r["calls"] and (r["b"], r["i"], m, x["s"]) not in seen_g and len(gv) < gates.get("limit", 40):
+                            seen_g.add((r["b"], r["i"], m, x["s"]))
+                            st = steps_of.get(r["b"])
+                            if st is None:
+                                continue
+                            outer = dict(st[r["i"] - 1])
+                            outer["during"] = {"method": m, "do": {"a": "Pub", "s": x["s"], "t": t, "c": "c2", "noecho": False, "chan": False}}
+                            gv.append(st[:r["i"] - 1] + [outer] + [{"a": "Get", "s": x["s"], "t": t, "what": "desc", "since": 0, "before": 0, "limit": 0, "chan": False}])
+        if gv:
+            gbj = world.behaviours_json(gv, users, sess, topics + (["sys"] if special else []), prefix="g", maxsubs=maxsubs, levels=levels)
+            gtrace, _ = world.replay(ctx, gbj, tag="g")
+            r4, grecs, gfails, gdivs = world.check_traces(ctx, gtrace, cb, props, name="TraceRunG", timeout=900)
+            ng = world.report(ctx, grecs, gfails, gdivs, prop, sig=signature)
+            fired = sum(1 for r in grecs if r.get("nested", {}).get("fired"))
+            vlib.log("interleaving gates: %d variants, %d nested requests fired; %d failures of %s monitors" % (len(gv), fired, ng, prop))
+            ctx.cov["gate_variants"] = {"variants": len(gv), "fired": fired}
+            recs = recs + grecs
+            bj = bj + gbj
     nontriv = len({json.dumps(r["act"], sort_keys=True) + "|" + json.dumps(recs[i - 1]["st"]["subs"], sort_keys=True)
                    for i, r in enumerate(recs) if r["i"] > 0 and r["reply"].get("code", 0) not in (0,)})
     ctx.cov.update({
